@@ -322,6 +322,19 @@ fn logical_cases(seed: u64, tier: Tier) -> Vec<Logical> {
         c[n - 1] ^= 1;
         v.push(dec("decrypt/empty-plaintext-file-with-a-tag-bit-changed", c, &kr_first, "bob", Some("bobpw"), false, &[], None));
     }
+    // whole records moved as units (each still authentic on its own, the final record still last): the position of a
+    // record in the stream is part of what is authenticated
+    {
+        let rec = |i: usize| -> Vec<u8> { f3[132 + i * (32 + CS)..(132 + (i + 1) * (32 + CS)).min(f3.len())].to_vec() };
+        let hdr = f3[..132].to_vec();
+        for (nm, order) in [("records-0-and-1-swapped", vec![1usize, 0, 2]), ("record-0-repeated", vec![0, 0, 1, 2]), ("record-1-dropped", vec![0, 2]), ("record-0-dropped", vec![1, 2])] {
+            let mut x = hdr.clone();
+            for i in order {
+                x.extend_from_slice(&rec(i));
+            }
+            v.push(dec(&format!("decrypt/{}", nm), x, &kr_first, "bob", Some("bobpw"), false, &[], None));
+        }
+    }
     let enc_case = |name: &str, kr: &str, to: &str, from: &str, pw: Option<&str>, ok: bool, plain: &[u8]| Logical {
         name: name.into(),
         kind: Kind::Encrypt,
@@ -367,6 +380,16 @@ fn logical_cases(seed: u64, tier: Tier) -> Vec<Logical> {
     v.push(pcase("pass-decrypt/key-file-given", Kind::PassDecrypt, f1.clone(), Some("filepw"), false, &[]));
     v.push(pcase("pass-decrypt/trailing-byte", Kind::PassDecrypt, [q3.clone(), vec![0]].concat(), Some("filepw"), false, &[]));
     v.push(pcase("pass-decrypt/truncated-at-chunk-boundary", Kind::PassDecrypt, q3[..36 + 2 * (32 + CS)].to_vec(), Some("filepw"), false, &[]));
+    {
+        let rec = |i: usize| -> Vec<u8> { q3[36 + i * (32 + CS)..(36 + (i + 1) * (32 + CS)).min(q3.len())].to_vec() };
+        for (nm, order) in [("records-0-and-1-swapped", vec![1usize, 0, 2]), ("record-1-dropped", vec![0, 2])] {
+            let mut x = q3[..36].to_vec();
+            for i in order {
+                x.extend_from_slice(&rec(i));
+            }
+            v.push(pcase(&format!("pass-decrypt/{}", nm), Kind::PassDecrypt, x, Some("filepw"), false, &[]));
+        }
+    }
     let q1 = r::write_pass_file_with_key(&pk, &salt, &p1, &[500]);
     v.push(pcase("pass-decrypt/valid-1-chunk", Kind::PassDecrypt, q1.clone(), Some("filepw"), true, &p1));
     v.push(pcase("pass-decrypt/trailing-byte-1-chunk", Kind::PassDecrypt, [q1, vec![0x41]].concat(), Some("filepw"), false, &[]));
@@ -391,9 +414,74 @@ fn logical_cases(seed: u64, tier: Tier) -> Vec<Logical> {
     v
 }
 
+/// One of the names on the command line (`which` = output | input | keyring) is `in\xffput.bin`-like: not UTF-8. The file of
+/// that exact name is the genuine one; a file whose name has U+FFFD in place of the bad byte holds different, equally
+/// well-formed data. Exit 1 (a refusal) is truthful; exit 0 must mean the operation was done on the files that were named.
+fn non_utf8_name(cases: &[Logical], ci: usize, which: &str) -> Result<(), String> {
+    use std::os::unix::ffi::OsStrExt;
+    let l = &cases[ci];
+    let w = Wiring { stdin_input: false, stdout_output: false, env_keyring: false, short_opts: false, alias: false, opts_first: false };
+    let (mut cmd, files, _) = build_cmd(l, &w);
+    let (plain_name, bad, lossy): (&str, Vec<u8>, String) = match which {
+        "output" => ("out.bin", b"ou\xfft.bin".to_vec(), "ou\u{fffd}t.bin".to_string()),
+        "input" => ("input.bin", b"in\xffput.bin".to_vec(), "in\u{fffd}put.bin".to_string()),
+        _ => ("kr.txt", b"k\xffr.txt".to_vec(), "k\u{fffd}r.txt".to_string()),
+    };
+    for a in cmd.args.iter_mut() {
+        if a == plain_name.as_bytes() {
+            *a = bad.clone();
+        }
+    }
+    let sc = Scratch::new();
+    for (n, d) in &files {
+        if n == plain_name {
+            std::fs::write(sc.0.join(std::ffi::OsStr::from_bytes(&bad)), d).map_err(|e| format!("MACHINERY: cannot create a file with a non-UTF-8 name: {}", e))?;
+        } else {
+            sc.write(n, d);
+        }
+    }
+    // the neighbour
+    match which {
+        "input" => {
+            let other: Vec<u8> = match l.kind {
+                Kind::Encrypt | Kind::PassEncrypt => b"the neighbour's plaintext".to_vec(),
+                _ => cases.iter().find(|c| c.succeeds && std::mem::discriminant(&c.kind) == std::mem::discriminant(&l.kind) && c.plain != l.plain && !c.plain.is_empty()).map(|c| c.input.clone()).unwrap_or_default(),
+            };
+            sc.write(&lossy, &other);
+        }
+        "keyring" => {
+            // binds the same names to other keys (locked under the same passwords)
+            let da = Party::new(1, "decoy-for-alice", "alicepw");
+            let db = Party::new(1, "decoy-for-bob", "bobpw");
+            sc.write(&lossy, format!("{}\n{}\n", proc::keyring_entry("alice", &da.pk_enc, Some(&da.locked)), proc::keyring_entry("bob", &db.pk_enc, Some(&db.locked))).as_bytes());
+        }
+        _ => {}
+    }
+    let out = proc::run(&cmd, &sc.0);
+    out.well_behaved()?;
+    if !out.ok() {
+        return Ok(());
+    }
+    let outname: Vec<u8> = if which == "output" { bad.clone() } else { b"out.bin".to_vec() };
+    let data = std::fs::read(sc.0.join(std::ffi::OsStr::from_bytes(&outname))).map_err(|_| format!("exit 0, but there is no file of the name given with -o ({:?}); the directory holds {:?}", String::from_utf8_lossy(&outname), std::fs::read_dir(&sc.0).map(|d| d.filter_map(|e| e.ok()).map(|e| e.file_name().to_string_lossy().to_string()).collect::<Vec<_>>()).unwrap_or_default()))?;
+    let good = match l.kind {
+        Kind::Decrypt | Kind::PassDecrypt => data == l.plain,
+        Kind::Encrypt => {
+            let (rsk, spk) = l.ref_keys.unwrap();
+            matches!(r::read_key_file(&rsk, &data), Ok(k) if k.parsed.plaintext == l.plain && k.sender == spk)
+        }
+        Kind::PassEncrypt => data.len() >= 36 && matches!(r::read_pass_file_with_key(&r::pass_key(l.pass_for_ref.as_ref().unwrap(), data[4..36].try_into().unwrap()), &data), Ok(p) if p.plaintext == l.plain),
+    };
+    if !good {
+        return Err(format!("exit 0, but the output is not the result of the operation on the files that were named (the {} name holds a byte that is not UTF-8; a neighbour named with U+FFFD in its place exists)", which));
+    }
+    Ok(())
+}
+
 pub fn run(rep: &'static Report) {
     rep.set_rule("E-PROC product: every logical case (valid and invalid inputs, keyrings with the sender first/last/absent and decoy entries sharing 24-character prefixes/suffixes of the sender's key and prefix/extension/case variants of the names) x the full product of wirings {file argument | stdin} x {-o | stdout} x {-k | KESTREL_KEYRING} x {long | short options} x {command | alias} x {options before | after the positional}: 64 per keyring command, 32 per password command. Each run is checked against the CLI reference model (exit status, plaintext bytes, REF-validity of produced files, sender line) and all wirings of one logical case must yield the same outcome. distinct non-trivial = distinct (logical case, wiring) runs");
-    rep.rule_add("per logical case the extra wirings size-limited output, pre-existing output, FIFO input, alias-named FILE, 5 pseudo-terminal wirings, decoy environment, stdout=/dev/full, stdout=closed pipe, stdin in pieces.");
+    rep.rule_add("per logical case the extra wirings size-limited output, pre-existing output, FIFO input, alias-named FILE, 5 pseudo-terminal wirings, decoy environment, stdout=/dev/full, stdout=closed pipe, stdin in pieces, names that are not UTF-8 (output, input, keyring; a U+FFFD-named neighbour holds other data).");
+    rep.rule_add("Logical cases include whole records swapped, repeated and dropped in both modes.");
     rep.assume("terminal-attached branches are exercised through a pseudo-terminal (password typed at a controlling terminal or at a terminal stdin); a real terminal emulator is not involved");
     let cases = logical_cases(rep.seed, rep.tier);
     let mut jobs = vec![];
@@ -513,6 +601,15 @@ pub fn run(rep: &'static Report) {
         for nm in ["alias-named-file/dec", "alias-named-file/enc", "alias-named-file/pass", "alias-named-file/gen", "alias-named-file/decrypt"] {
             xjobs.push((ci, nm));
         }
+        // a name on the command line holds a byte sequence that is not UTF-8 (a legal file name): either the command refuses
+        // (exit 1), or it works on exactly the named file -- a neighbour whose name has U+FFFD at that place holds other data
+        if cases[ci].succeeds {
+            xjobs.push((ci, "non-utf8-name/output"));
+            xjobs.push((ci, "non-utf8-name/input"));
+            if matches!(cases[ci].kind, Kind::Decrypt | Kind::Encrypt) {
+                xjobs.push((ci, "non-utf8-name/keyring"));
+            }
+        }
         // the password comes from the environment (--env-pass) while stdin is a terminal: the outcome is that of the
         // non-interactive run (in particular a wrong password ends the run with exit 1; nothing can be re-asked)
         if cases[ci].password.is_some() {
@@ -530,6 +627,9 @@ pub fn run(rep: &'static Report) {
         rep.nontrivial(format!("{}-{}", cases[ci].name, kind).as_bytes());
         let attempt = || -> Result<(), String> {
             let l = &cases[ci];
+            if let Some(which) = kind.strip_prefix("non-utf8-name/") {
+                return non_utf8_name(&cases, ci, which);
+            }
             let tty = kind.starts_with("tty-");
             let failing_stdout = kind == "stdout-dev-full" || kind == "stdout-closed-pipe";
             let w = Wiring { stdin_input: kind.contains("/stdin-pipe/") || kind == "stdin-in-pieces", stdout_output: kind.ends_with("/stdout-pipe") || failing_stdout, env_keyring: false, short_opts: false, alias: false, opts_first: false };
@@ -632,7 +732,7 @@ pub fn run(rep: &'static Report) {
             }
             out.well_behaved()?;
             if out.ok() != should_succeed {
-                return Err(format!("exit status {} but the operation {} when {}", if out.ok() { 0 } else { 1 }, if should_succeed { "should complete" } else { "cannot complete" }, match kind { "stdout-dev-full" => "stdout is /dev/full".to_string(), "stdout-closed-pipe" => "stdout is a pipe whose reader is gone".to_string(), "stdin-in-pieces" => "the input arrives on a stdin pipe in pieces".to_string(), "fifo-input" => "the FILE argument is a named pipe carrying the same bytes".to_string(), "preexisting-output" => "the output path already holds a longer file".to_string(), "decoy-environment" => "KESTREL_NEW_PASSWORD and (next to -k) KESTREL_KEYRING are set to decoys".to_string(), "env-pass-at-a-terminal" => "the password comes from the environment while stdin is a terminal".to_string(), k if k.starts_with("alias-named-file/") => format!("the input file is named '{}'", &k[17..]), k => format!("the password is typed at a terminal ({})", k) }));
+                return Err(format!("exit status {} but the operation {} when {}", if out.ok() { 0 } else { 1 }, if should_succeed { "should complete" } else { "cannot complete" }, match kind { "stdout-dev-full" => "stdout is /dev/full".to_string(), "stdout-closed-pipe" => "stdout is a pipe whose reader is gone".to_string(), "stdin-in-pieces" => "the input arrives on a stdin pipe in pieces".to_string(), "fifo-input" => "the FILE argument is a named pipe carrying the same bytes".to_string(), "preexisting-output" => "the output path already holds a longer file".to_string(), "decoy-environment" => "KESTREL_NEW_PASSWORD and (next to -k) KESTREL_KEYRING are set to decoys".to_string(), "env-pass-at-a-terminal" => "the password comes from the environment while stdin is a terminal".to_string(), k if k.starts_with("non-utf8-name/") => "a name is not UTF-8".to_string(), k if k.starts_with("alias-named-file/") => format!("the input file is named '{}'", &k[17..]), k => format!("the password is typed at a terminal ({})", k) }));
             }
             if out.ok() && !failing_stdout {
                 let data = if w.stdout_output { out.stdout.clone() } else { sc.read("out.bin").ok_or("exit 0 but no output file")? };
